@@ -74,7 +74,7 @@ def rule_put(ck: Check, repo: Repo) -> None:
             return ("raise", "URLError", [])
         return ("return", "None", [("download", "spdx_identifier"), ("effect", "open-w", "Path(destination)")])
 
-    leaves = tabulate(fn, PutHooks(), ref)
+    leaves = tabulate(fn, PutHooks(), ref, params=["spdx_identifier", "destination", "source"])
     r.floor(7, "paths through put_license_in_file", got=len(leaves))
     for d, leaf, exp in leaves:
         ev = [e for e in leaf.events if e[0] in ("effect", "download", "network")]
@@ -118,7 +118,7 @@ def rule_put(ck: Check, repo: Repo) -> None:
                 return "ok200"
             return None
 
-    for d, leaf, _ in tabulate(dl, H(), lambda v: v("ok200")):
+    for d, leaf, _ in tabulate(dl, H(), lambda v: v("ok200"), params=["spdx_identifier"]):
         r.instance("download_license:" + show_valuation(d), {"outcome": leaf.outcome[:2]})
         if d.get("ok200") and (leaf.outcome[0] != "return" or ".read().decode('utf-8')" not in leaf.outcome[1]):
             r.violation(f"{DL}.download_license", "status 200", f"{leaf.outcome}", repo.loc(dl))
@@ -183,7 +183,7 @@ def rule_cli(ck: Check, repo: Repo) -> None:
             return "usage"
         return "run"
 
-    leaves = tabulate(fn, H(), ref)
+    leaves = tabulate(fn, H(), ref, params=["obj", "licenses", "all_", "output", "source"])
     r.floor(6, "paths through download", got=len(leaves))
     for d, leaf, exp in leaves:
         name = show_valuation({k.split("::")[-1] if "raise[" in k else k: v for k, v in d.items()})
